@@ -4,7 +4,7 @@
 cd /verif; id=$1; rm -f known_cases/$id.json
 export VERIF_RECORD_CASES=1
 for seed in 0 1 2 3 4 5 6 7; do VERIF_SEED=$seed ./check $id quick >/dev/null; done
-tseeds="0 1"; [ $id = C05 ] && tseeds="0 1 2 3"
+tseeds="0 1"; [ $id = C05 ] && tseeds="0 1 2 3"; [ $id = C08 ] && tseeds="0 1 2"
 for seed in $tseeds; do VERIF_SEED=$seed ./check $id thorough >/dev/null; done
 [ -f known_cases/$id.json ] && python3 -c "
 import json; d=json.load(open('/verif/known_cases/$id.json')); print('$id', {k[:60]:len(v) for k,v in d.items()})" || echo "$id: no known finding carries case identities"
